@@ -219,7 +219,42 @@ pub fn record_limits(output: &str) {
             }
         }
     }
+    record_near_end(&mut out);
     out.finish();
+}
+
+/// B2 for C07: random REAL limits (not on any lattice, not representable in single precision) probed 1e-9 rad
+/// inside and outside both arc ends, through all three constructors. The side is known by construction; TLC
+/// demands acc <=> side = "inside" (Trace_Limits!JudgeNearEnd).
+pub fn record_near_end(out: &mut Out) {
+    let mut r = rng(707);
+    let n = if thorough() { 40_000 } else { 4_000 };
+    let two_pi = 2.0 * std::f64::consts::PI;
+    for k in 0..n {
+        let f = r.gen_range(-2.0 * two_pi..2.0 * two_pi);
+        let len = r.gen_range(0.01..two_pi - 0.01);
+        // ordinary range (to = from + len) or the same arc written as a wrap-around range (to below from)
+        let wrap = k % 3 == 2;
+        let t = if wrap { f + len - two_pi } else { f + len };
+        let j = k % 6;
+        let mut from = [-1.0; 6];
+        let mut to = [1.0; 6];
+        from[j] = f;
+        to[j] = t;
+        let from_deg: [f64; 6] = std::array::from_fn(|i| from[i].to_degrees());
+        let to_deg: [f64; 6] = std::array::from_fn(|i| to[i].to_degrees());
+        let ctor = CTORS[(k / 6) % 3];
+        // from_degrees gets degrees; compare against the radian value those degrees stand for
+        let (f_eff, len_eff) = if ctor == "from_degrees" { (from_deg[j].to_radians(), (to_deg[j].to_radians() - from_deg[j].to_radians()).rem_euclid(two_pi)) } else { (f, len) };
+        let c = build(ctor, &from, &to, &from_deg, &to_deg);
+        let turns = r.gen_range(-1..=1) as f64 * two_pi;
+        for (end, side, angle) in [("from", "outside", f_eff - 1e-9), ("from", "inside", f_eff + 1e-9), ("to", "inside", f_eff + len_eff - 1e-9), ("to", "outside", f_eff + len_eff + 1e-9)] {
+            let mut q = [0.0; 6];
+            q[j] = angle + turns;
+            out.put(json!({"ev": "near-end", "ctor": ctor, "end": end, "side": side, "acc": c.compliant(&q), "wrap": wrap,
+                "from_deg": from_deg[j], "to_deg": to_deg[j], "angle_rad": q[j]}));
+        }
+    }
 }
 
 /// B2 for C18: sampler events. Lattice (15 degree) and random limits in +-2 pi, many draws each.
